@@ -483,12 +483,16 @@ def long_listing_parser_probe(run):
             lines.append(f"  {a}:\t00 00 ")          # continuation line
             lines.append("")
             lines.append(f"{int(a, 16) + 3:016x} <g{i}>:")
-    stream = jasmapi.parse_listing("\n".join(lines) + "\n")
-    got = [r.split("::", 1)[0] for r in stream.split("|") if r]
-    run.count("traces_validated_against_impl")
-    if got != want:
-        first = next((i for i, (x, y) in enumerate(zip(got, want)) if x != y), min(len(got), len(want)))
-        run.failure("long_listing/STREAM", f"listing of {n} instruction lines gave {len(got)} stream instructions; first difference at instruction #{first} (expected address {want[first] if first < len(want) else None})", {"kind": "lx_long", "n": n})
+    text = "\n".join(lines) + "\n"
+    # (a) the parser alone, (b) the whole file route (disassembler stub, producer, parser, observers, consumer),
+    # (c) the same listing shifted by a few blank lines (chunk / batch borders must not fall differently)
+    for route, fn in (("parser", lambda: jasmapi.parse_listing(text)), ("file", lambda: jasmapi.file_route_stream(text)), ("file_shifted", lambda: jasmapi.file_route_stream("\n\n\n" + text))):
+        stream = fn()
+        got = [r.split("::", 1)[0] for r in stream.split("|") if r]
+        run.count("traces_validated_against_impl")
+        if got != want or stream.count(",|") != len(want):
+            first = next((i for i, (x, y) in enumerate(zip(got, want)) if x != y), min(len(got), len(want)))
+            run.failure(f"long_listing/STREAM/{route}", f"listing of {n} instruction lines ({len(text)} characters) gave {len(got)} stream instructions through the {route} route; first difference at instruction #{first} (expected address {want[first] if first < len(want) else None})", {"kind": "lx_long", "n": n, "route": route})
 
 
 def c08_extra(ctx):
@@ -622,6 +626,13 @@ def c10_extra(ctx):
     run.count("traces_validated_against_impl")
     if got != "2000::nop,,|2001::ret,,|":
         run.failure("record_format/after_failed_run", f"stream of a run that follows a failed run: {got!r}", {"kind": "lx_stream", "text": got})
+    # a listing without any instruction encodes the empty list: the stream is the empty string (no stray separators)
+    for nm, text in (("header_only", "\nprog:     file format elf64-x86-64\n\n"), ("empty_file", ""), ("only_dropped_lines", "Disassembly of section .data:\n\n0000000000004000 <d>:\n\t...\n    4010:\t00 00 \n")):
+        got = jasmapi.file_route_stream(text)
+        run.count("traces_validated_against_impl")
+        if got != "":
+            run.failure("record_format/empty_list", f"a listing without instructions ({nm}) gives the stream {got!r} instead of the empty string", {"kind": "lx_stream", "text": got})
+    long_listing_parser_probe(run)
     hs += [h for h in c09.harnesses(tier()) if any(x in h.name for x in ("/mem4/", "/mem3/", "/mem1/", "/mem0/", "/pair", "/mem4_nobase/", "/mem3_suffix/", "/mem0_suffix/"))]
     ch.run_harnesses(run, hs)
 
@@ -675,6 +686,23 @@ def presentation_edit_battery(run):
         run.count("traces_validated_against_impl")
         if got != base:
             run.failure(f"presentation/{name.replace(' ', '_')}", f"edit '{name}' changes the instruction stream: {got[:160]!r} vs {base[:160]!r}", {"kind": "lx_edit", "edit": name})
+    # the same through the whole FILE route (what a user runs), including how the text is stored in the file, and with rule
+    # options that must not make the presentation matter (sections is a binary-route option, valid_addr_range a tagging option)
+    file_variants = {
+        "file route": render().encode(),
+        "file route, CRLF line ends": render().replace("\n", "\r\n").encode(),
+        "file route, no final newline": render().rstrip("\n").encode(),
+        "file route, no section headers": render(sections=()).encode(),
+        "file route, section renamed": render().replace(".s0", ".text").encode(),
+        "file route, no labels no blanks": render(labels=(), blanks=False).encode(),
+    }
+    for opt_name, cfgdoc in (("", None), (" with config.sections", {"config": {"sections": [".s5"]}, "pattern": ["zzzz"]})):
+        for name, data in file_variants.items():
+            got = jasmapi.file_route_stream(data, cfgdoc)
+            run.count("traces_validated_against_impl")
+            if got != base:
+                nm = name + opt_name
+                run.failure(f"presentation/{nm.replace(' ', '_').replace(',', '')}", f"edit '{nm}' changes the instruction stream: {got[:160]!r} vs {base[:160]!r}", {"kind": "lx_edit", "edit": nm})
 
 
 def c16_extra(ctx):
